@@ -96,15 +96,18 @@ package sstables
 
 //@ func (SSTableMerger).MergeCompactIterator
 //@   props C11 C08
+//@   requires [comparator-given] m.comp != nil
 //@   ensures [fresh-iterator] r1 == nil ==> r0 != nil && itPos(r0) == 0
 //@   ensures [C08:starts-with-the-grouping-invariant] r1 == nil ==> mcRI(asType(*MergeCompactionIterator, r0)) && asType(*MergeCompactionIterator, r0).comp == m.comp
 //@   fresh r0
 //@   modifies inPos(*), itPos(*)
 //@   loop 0
 //@     invariant isnil(iteratorWithContext) || fresh(iteratorWithContext)
+//@     invariant len(iteratorWithContext) <= iter && iter <= len(iterators) && (forall a Int :: 0 <= a && a < len(iteratorWithContext) ==> iteratorWithContext[a] != nil)
 
 //@ func (SSTableMerger).MergeCompact
 //@   props C11 C08
+//@   requires [comparator-given] m.comp != nil
 //@   replay merge_compact_faults
 //@   ensures [write-errors-reported] err == nil ==>
 //@           forall i :: old(wCount(writer)) <= i && i < wCount(writer) ==> wErr(writer, i) == nil
@@ -120,6 +123,7 @@ package sstables
 
 //@ func (SSTableMerger).Merge
 //@   props C11 C08
+//@   requires [comparator-given] m.comp != nil
 //@   replay merge_compact_faults
 //@   ensures [write-errors-reported] err == nil ==>
 //@           forall i :: old(wCount(writer)) <= i && i < wCount(writer) ==> wErr(writer, i) == nil
@@ -129,6 +133,7 @@ package sstables
 //@   modifies wCount(writer), inPos(*), itPos(*), qPos(*)
 //@   loop 0
 //@     invariant isnil(iteratorWithContext) || fresh(iteratorWithContext)
+//@     invariant len(iteratorWithContext) <= iter && iter <= len(iterators) && (forall a Int :: 0 <= a && a < len(iteratorWithContext) ==> iteratorWithContext[a] != nil)
 //@   loop 1
 //@     invariant pqq != nil && 0 <= qPos(pqq)
 //@     invariant forall i :: 0 <= i && i < qPos(pqq) ==> qErr(pqq, i) == nil
@@ -404,6 +409,7 @@ package sstables
 
 //@ func (SuperSSTableReader).Scan
 //@   props C08
+//@   requires [comparator-given] s.comp != nil
 //@   replay super_reader_model
 //@   requires forall t :: 0 <= t && t < len(s.readers) ==> s.readers[t] != nil
 //@   call 0 of MergeCompactIterator: assert [every-table-takes-part-with-its-position] len(arg0) == len(s.readers) &&
@@ -414,6 +420,7 @@ package sstables
 
 //@ func (SuperSSTableReader).ScanStartingAt
 //@   props C08
+//@   requires [comparator-given] s.comp != nil
 //@   requires forall t :: 0 <= t && t < len(s.readers) ==> s.readers[t] != nil
 //@   call 0 of MergeCompactIterator: assert [every-table-takes-part-with-its-position] len(arg0) == len(s.readers) &&
 //@        (forall j :: 0 <= j && j < len(arg0) ==> arg0[j].ctx == j) && arg1 == fn(scanReduceLatestWinsSkipNil)
@@ -423,6 +430,7 @@ package sstables
 
 //@ func (SuperSSTableReader).ScanRange
 //@   props C08
+//@   requires [comparator-given] s.comp != nil
 //@   requires forall t :: 0 <= t && t < len(s.readers) ==> s.readers[t] != nil
 //@   call 0 of MergeCompactIterator: assert [every-table-takes-part-with-its-position] len(arg0) == len(s.readers) &&
 //@        (forall j :: 0 <= j && j < len(arg0) ==> arg0[j].ctx == j) && arg1 == fn(scanReduceLatestWinsSkipNil)
